@@ -156,7 +156,7 @@ def jobs(tier):
             con.add(c)
         con.add(E('vf_canary', 'canary_exit'))
         j = Job(rname(op, a, m, tr), NAME, rname(op, a, m, tr), con, ('C05', 'C02'),
-                stubs=[(r'^bool vf::RM?<\d+>::match<', stub)], prelude=exc_prelude(tr),
+                stubs=[(r'^bool vf::RM?<\d+>::match<', stub) + (('opt',) if op == 'raise' else ())], prelude=exc_prelude(tr),
                 harness=comb_harness('vf_' + INPUT_TYPES[(tr, 'lf_crlf')], tr, 'w_ret = $ENTRY(&in)').replace('vf_exc.pending = 0;', 'vf_exc.pending = 0; vf_exc.obj = 0; __CPROVER_assume(vf_exc_counter < 1000);' + (' g_begin_byte = in._b0.m_begin.byte; __CPROVER_assume(in._b0.m_begin.byte < ((size_t)1<<62) && in._b0.m_begin.line >= 1 && in._b0.m_begin.line < ((size_t)1<<62) && in._b0.m_begin.column >= 1 && in._b0.m_begin.column < ((size_t)1<<62));' if tr == 'lazy' else '')),
                 expect_fail_canary=('canary_exit',),
                 loops=({(r'^tao::pegtl::internal::bump\(', 1): BUMP_LOOP} if (tr == 'lazy' and op.startswith('tcrn')) else {}),
